@@ -156,27 +156,33 @@ where
                 //   v = w / u  =>  [wmin / umax .. wmax / umin]
                 //
                 // The constraint is not dropped until all variables converge into numbers.
+                //
+                // With negative numbers in the domains the extreme products can be at any
+                // corner, and the quotient bounds above hold only for non-negative operands;
+                // in that case u and v are not narrowed.
+                let products = [
+                    umin.saturating_mul(vmin),
+                    umin.saturating_mul(vmax),
+                    umax.saturating_mul(vmin),
+                    umax.saturating_mul(vmax),
+                ];
+                let wlow = *products.iter().min().unwrap();
+                let whigh = *products.iter().max().unwrap();
+                let nonneg = umin >= 0 && vmin >= 0 && wmin >= 0;
+                let (ulow, uhigh, vlow, vhigh) = if nonneg {
+                    (
+                        wmin.checked_div(vmax).unwrap_or(umin),
+                        wmax.checked_div(vmin).unwrap_or(umax),
+                        wmin.checked_div(umax).unwrap_or(vmin),
+                        wmax.checked_div(umin).unwrap_or(vmax),
+                    )
+                } else {
+                    (umin, umax, vmin, vmax)
+                };
                 let state = state
-                    .process_domain(
-                        &wwalk,
-                        Rc::new(FiniteDomain::from(
-                            umin.saturating_mul(vmin)..=umax.saturating_mul(vmax),
-                        )),
-                    )?
-                    .process_domain(
-                        &uwalk,
-                        Rc::new(FiniteDomain::from(
-                            wmin.checked_div(vmax).unwrap_or(umin)
-                                ..=wmax.checked_div(vmin).unwrap_or(umax),
-                        )),
-                    )?
-                    .process_domain(
-                        &vwalk,
-                        Rc::new(FiniteDomain::from(
-                            wmin.checked_div(umax).unwrap_or(vmin)
-                                ..=wmax.checked_div(umin).unwrap_or(vmax),
-                        )),
-                    )?;
+                    .process_domain(&wwalk, Rc::new(FiniteDomain::from(wlow..=whigh)))?
+                    .process_domain(&uwalk, Rc::new(FiniteDomain::from(ulow..=uhigh)))?
+                    .process_domain(&vwalk, Rc::new(FiniteDomain::from(vlow..=vhigh)))?;
                 if state.smap_ref().len() != smap.len() {
                     // An operand was bound while the domains were narrowed: the walked
                     // operands and their domains used above are stale, so the constraint
